@@ -268,22 +268,51 @@ def check_families(ctx, r, rid="R5"):
                            % (label, sorted(have) if have is not None else absint.fmt(got)[:200], ", ".join(c14.LOCALES)))
     # ---- match_nested
     def static_test(rv, a):
+        # leptos_router 0.7.8, `impl PossibleRouteMatch for StaticSegment<T>` - transcribed, quirks included: it compares the text of
+        # the segment with the beginning of the path and stops where the segment's text ends, *not* at the end of the path segment
+        # (`StaticSegment("en").test("/entries")` is a match of `/en` that leaves `tries`)
         seg = rv[2][0][1]
         path = a[0][1]
-        p = path[1:] if path.startswith("/") else path
-        first, _, rest = p.partition("/")
-        if first != seg or not seg:
+        matched_len = 0
+        test = list(path)
+        this = list(seg)
+        ti = si = 0
+        has_matched = seg in ("", "/")
+        if test[:1] == ["/"]:
+            ti = 1
+            if seg != "":
+                matched_len += 1
+            if seg.startswith("/") or seg == "":
+                si += 1
+        while ti < len(test):
+            ch = test[ti]
+            ti += 1
+            n_ = this[si] if si < len(this) else None
+            si += 1
+            if ch == "/" or n_ is None:
+                break
+            elif ch == n_:
+                has_matched = True
+                matched_len += len(ch.encode("utf-8"))
+            else:
+                return C("None")
+        if si < len(this):
             return C("None")
-        return C("Some", CF("PartialPathMatch", remaining=S("/" + rest if rest else ""), matched=S("/" + first)))
+        pb = path.encode("utf-8")
+        if not has_matched:
+            return C("None")
+        return C("Some", CF("PartialPathMatch", remaining=S(pb[matched_len:].decode("utf-8")), matched=S(pb[:matched_len].decode("utf-8"))))
 
     inner_route = {"t": about}
 
     def inner_match(a):
         path = a[1][1]
-        segs_ = [x for x in inner_route["t"][current()] if x]
+        tab_ = inner_route["t"][current()]
         p = [x for x in path.split("/") if x]
-        if len(p) == len(segs_) and all(sg.startswith(":") or sg == x for sg, x in zip(segs_, p)):
-            return T(C("Some", T(A("route-id"), A("inner-match:" + current()))), S(""))
+        for segs_ in (tab_ if tab_ and isinstance(tab_[0], list) else [tab_]):
+            segs_ = [x for x in segs_ if x]
+            if len(p) == len(segs_) and all(sg.startswith(":") or sg == x for sg, x in zip(segs_, p)):
+                return T(C("Some", T(A("route-id"), A("inner-match:" + current()))), S(""))
         return T(C("None"), S(path))
     # a route that starts with a parameter: `/fr/a-propos` passes the `fr` prefix test, fails inside the fr family (one segment short) and
     # must then be tried against the unprefixed family with the *default* locale's words (where `a-propos` is not `about`)
@@ -291,6 +320,10 @@ def check_families(ctx, r, rid="R5"):
     cases = [(about, u, w) for u, w in [("/fr/a-propos", "fr"), ("/de/ueber", "de"), ("/about", None), ("/en/about", "en"), ("/fr/about", False), ("/a-propos", False), ("/french/a-propos", False), ("/frites", False), ("/de/a-propos", False),
                                          ("/FR/a-propos", False), ("/Fr/a-propos", False), ("/EN/about", False)]]
     cases += [(section, u, w) for u, w in [("/fr/x/a-propos", "fr"), ("/x/about", None), ("/en/x/about", "en"), ("/fr/a-propos", False), ("/de/ueber", False), ("/x/a-propos", False), ("/fr/about", None), ("/de/x/a-propos", False)]]
+    # two ordinary routes, one of which is a locale name followed by the other: `/entries` = `en` + `tries`, `/defr` ..; the first segment of
+    # `/entries` is not a locale name, so it belongs to the unprefixed family (and `/frtries` to none)
+    words = {l_: [["", "tries"], ["", "entries"], ["", "x", "tries"]] for l_ in c14.LOCALES}
+    cases += [(words, u, w) for u, w in [("/entries", None), ("/tries", None), ("/en/tries", "en"), ("/en/entries", "en"), ("/fr/tries", "fr"), ("/frtries", False), ("/detries", False), ("/enx/tries", False), ("/x/tries", None)]]
     for table_, url, want_loc in cases:
         inner_route["t"] = table_
         ev = mk()
